@@ -22,3 +22,6 @@ def run(repo, res, tier):
     # every text a time writer can return is a time for its own reader (all return paths, as languages)
     from .. import timerules as _tr
     _tr.rule_time_lang(repo, res)
+    # the dialect's rules for times live in the decoder (and grammar) the caller chose: the file entry points hand both on
+    from .. import entryrules as _er14
+    _er14.rule_f1(repo, res, "__init__")
